@@ -120,9 +120,13 @@ Example c20_ws_fixed_on_witness :
 Proof. exact ws_fixed_on_witness. Qed.
 Print Assumptions c20_ws_fixed_on_witness.
 
-(* URL branch (modelled URL shape only): the port is the URL's or the scheme's, <= 65535. *)
+(* URL branch (modelled URL shape only): the result is the URL's host name (0.0.0.0 when
+   global) joined with the URL's port (<= 65535), or with the scheme's port if it has none. *)
 Theorem c20_ws_url_port : forall v a u0 u g r, get_ws_host_port v a (u0 :: u) g = WOk r ->
-  exists hn n, (n <= 65535)%N /\ r = join_host_port (if g then B "0.0.0.0" else hn) (format_uint n).
+  exists scheme uh hn ps n,
+    url_parse (u0 :: u) = UOk scheme uh /\ url_split_host_port uh = (hn, ps) /\
+    (match ps with [] => scheme_to_port scheme = Some n | _ => parse_uint16 ps = Some n end) /\
+    (n <= 65535)%N /\ r = join_host_port (if g then B "0.0.0.0" else hn) (format_uint n).
 Proof. exact ws_url_spec. Qed.
 Print Assumptions c20_ws_url_port.
 
